@@ -45,6 +45,10 @@ Train == /\ phase = "source" /\ "trained" \notin srcHist /\ srcHist' = srcHist \
          /\ UNCHANGED <<phase, dstMode, evalFirst, dstUsed, route, retrained, stale, verdict, usedAfter, converted, oldDtype>>
 UseSrc == /\ phase = "source" /\ "used" \notin srcHist /\ srcHist' = srcHist \cup {"used"}
           /\ UNCHANGED <<phase, dstMode, evalFirst, dstUsed, route, retrained, stale, verdict, usedAfter, converted, oldDtype>>
+\* fine-tuning practice on the source, before anything else: its parameters are frozen (requires_grad_(False)) while it
+\* is used in TRAINING mode, then released again (what it derived while frozen must not outlive the release)
+FrozenPhase == /\ phase = "source" /\ srcHist = {} /\ srcHist' = {"frozen_phase"}
+               /\ UNCHANGED <<phase, dstMode, evalFirst, dstUsed, route, retrained, stale, verdict, usedAfter, converted, oldDtype>>
 BuildDst == /\ phase = "source" /\ phase' = "destination"
             /\ UNCHANGED <<srcHist, dstMode, evalFirst, dstUsed, route, retrained, stale, verdict, usedAfter, converted, oldDtype>>
 
@@ -80,12 +84,12 @@ Compare == /\ phase = "loaded" /\ phase' = "compared"
 DoUseDst == phase = "destination" /\ \E k \in Uses : UseDst(k)
 DoLoad == phase = "destination" /\ \E r \in Routes : Load(r)
 DoUseLoaded == phase = "loaded" /\ \E k \in {"fwd", "inv"} : UseLoaded(k)
-Next == Train \/ UseSrc \/ BuildDst \/ EvalFirst \/ DoUseDst \/ DoLoad \/ Retrain \/ DoUseLoaded \/ Convert \/ Compare
+Next == Train \/ UseSrc \/ FrozenPhase \/ BuildDst \/ EvalFirst \/ DoUseDst \/ DoLoad \/ Retrain \/ DoUseLoaded \/ Convert \/ Compare
 Spec == Init /\ [][Next]_vars
 
 -----------------------------------------------------------------------------
 TypeOK == /\ phase \in {"source", "destination", "loaded", "compared"}
-          /\ srcHist \subseteq {"trained", "used"} /\ dstUsed \subseteq Uses /\ stale \subseteq Uses
+          /\ srcHist \subseteq {"trained", "used", "frozen_phase"} /\ dstUsed \subseteq Uses /\ stale \subseteq Uses
           /\ route \in Routes \cup {"none"} /\ dstMode \in {"train", "eval"}
           /\ usedAfter \subseteq Uses /\ oldDtype \subseteq Uses /\ converted \in BOOLEAN
 \* C15: whatever happened before, the reloaded model computes the saved function
